@@ -82,12 +82,24 @@ class UE(Exception):
     pass
 
 
+class UQ(queue.Empty):
+    """the user's own code raises queue.Empty (kind UEMPTY)"""
+
+
+def _exc_class(kind):
+    return {2: UE, 3: UB, 5: UQ}[kind]
+
+
+def _end_name(kind):
+    return {2: 'UE', 3: 'UB', 5: 'UQ'}[kind]
+
+
 def replay_stp(model, step_timeout=1.0):
     """model: dict(params=..., trace=[dict(actor, line, label)]) from systems.encode.decode"""
     import lazy_dataset.parallel_utils as pu
     pu_file = pu.__file__
     P = model['params']
-    n, buffer_size, close_at, fail_at, fail_base = P['n'], P['buffer_size'], P['close_at'], P['fail_at'], P['fail_base']
+    n, buffer_size, close_at, fail_at, fail_kind = P['n'], P['buffer_size'], P['close_at'], P['fail_at'], P['fail_kind']
     ctl = Controller()
     names = ('single_thread_prefetch', 'worker')
 
@@ -107,7 +119,7 @@ def replay_stp(model, step_timeout=1.0):
         for i in range(n + 1):
             if i == fail_at:
                 events.append(('pull-raise', i))
-                raise (UB if fail_base else UE)(i)
+                raise _exc_class(fail_kind)(i)
             if i < n:
                 events.append(('pull', i))
                 yield i
@@ -238,9 +250,9 @@ def observed_violation(mode, model, obs):
         return obs['delivered'] != exp, f'delivered {obs["delivered"]}'
     if mode == 'complete':
         return obs['delivered'] != list(range(P['n'])) or obs['end'] != 'return', f'delivered {obs["delivered"]} of n={P["n"]}, ended with {obs["end"]}'
-    if mode in ('error_position', 'error_position_base', 'src_error_position', 'src_error_position_base'):
+    if mode.startswith('error_position') or mode.startswith('src_error_position'):
         f = P['fail_at'] if P['fail_at'] >= 0 else P['taskfail']
-        want_end = 'UB' if (P['fail_base'] if P['fail_at'] >= 0 else P['taskfail_base']) else 'UE'
+        want_end = _end_name(P['fail_kind'] if P['fail_at'] >= 0 else P['taskfail_kind'])
         ok = obs['delivered'] == list(range(f)) and obs['end'] == want_end
         return not ok, f'failure at position {f}: delivered {obs["delivered"]}, generator ended with {obs["end"]} (expected {want_end})'
     if mode == 'after_return':
@@ -310,7 +322,7 @@ def replay_lpm_thread(model, step_timeout=1.0):
     pu_file = pu.__file__
     P = model['params']
     n, B, Wk, close_at = P['n'], P['buffer_size'], P['max_workers'], P['close_at']
-    fail_at, fail_base, taskfail, taskfail_base = P['fail_at'], P['fail_base'], P['taskfail'], P['taskfail_base']
+    fail_at, fail_kind, taskfail, taskfail_kind = P['fail_at'], P['fail_kind'], P['taskfail'], P['taskfail_kind']
     ctl = Controller()
     names = ('lazy_parallel_map', 'submit', 'result', 'terminate')
 
@@ -329,7 +341,7 @@ def replay_lpm_thread(model, step_timeout=1.0):
     def source():
         for i in range(n + 1):
             if i == fail_at:
-                raise (UB if fail_base else UE)(i)
+                raise _exc_class(fail_kind)(i)
             if i < n:
                 events.append(('pull', i))
                 yield i
@@ -339,7 +351,7 @@ def replay_lpm_thread(model, step_timeout=1.0):
         ctl.gate_as(f'finish{i}', 'finish')
         events.append(('finish', i))
         if i == taskfail:
-            raise (UB if taskfail_base else UE)(i)
+            raise _exc_class(taskfail_kind)(i)
         return i
 
     class GatedTPE(concurrent.futures.ThreadPoolExecutor):
